@@ -31,6 +31,22 @@ def extra_leaves():
     }
 
 
+def tiny_leaves():
+    """2x2 leaves with very small entries: three-factor Kronecker products / block diagonals / products of them reach
+    dimension 8, where TLC's determinant (subset dynamic programming, Mat!DetDP) still fits 32-bit integers."""
+    q = catalog.q
+    return {
+        "T_sh": catalog.dense([[1, 1], [0, 1]], "f64"),          # det 1
+        "T_dg": catalog.diag([-1, 2], "f64"),                    # det -2
+        "T_tl": catalog.tri([[2, 0], [1, 1]], True, "f64"),      # det 2
+        "T_pm": catalog.perm([1, 0], "f64"),                     # det -1
+        "T_sc": catalog.scalarmul(q(-2), 2, "f64"),              # det 4
+        "T_rt": catalog.dense([[1, -1], [1, 1]], "f32"),         # det 2
+        "T_ci": catalog.diag([1j, 1], "c128"),                   # det i
+        "T_33": catalog.dense([[1, 0, 1], [0, 1, 0], [1, 0, -1]], "f64"),   # det -2, size 3
+    }
+
+
 def plan(tier, seed, acts_extra=(), lvl2=True):
     L = catalog.leaves(seed, n_random=0)
     L.update(extra_leaves())
@@ -44,6 +60,11 @@ def plan(tier, seed, acts_extra=(), lvl2=True):
     ops2 = [L[n] for n in ["D22s", "Dg2n", "I2", "Sc2n", "P2", "Sy22d", "Hc22d", "TL22", "Un22c"]]
     acts = ACTS | set(acts_extra)
     runs = [dict(seeds=seeds, operands=seeds, small=ops2[:2], acts=acts, lvl=1, dim=4, ebound=12)]
+    tl = tiny_leaves()
+    runs.append(dict(seeds=list(tl.values()), operands=[tl[n] for n in ("T_sh", "T_dg", "T_rt", "T_33")],
+                     small=[tl[n] for n in ("T_sh", "T_dg", "T_tl")],
+                     acts={"Kronecker", "BlockDiag", "Product", "Kronecker3", "BlockDiag3", "Product3", "linalg"}
+                     | set(acts_extra), lvl=1, dim=9, ebound=12))
     if lvl2:
         if tier == "quick":
             s2 = [L[n] for n in ["D22s", "Dg2n", "I2", "Sc2n", "P2", "Sy22d", "Hc22d", "TL22", "D22c", "Sc2c", "Un22c",
